@@ -19,7 +19,7 @@ func newFuncVC(p *Prog, fn *ssa.Function, c *Contract) *FuncVC {
 		edge: map[[2]int]string{}, heapSorts: map[string]Sort{}, tags: map[string]int{}, strConsts: map[string]string{},
 		fnIDs: map[*ssa.Function]int{}, loopHeads: map[*ssa.BasicBlock]int{}, loopBody: map[*ssa.BasicBlock][]*ssa.BasicBlock{},
 		backEdges: map[[2]int]bool{}, trustedUse: map[string]bool{}, unmodelled: map[string]bool{}, logKeys: map[string][]Sort{},
-		escaped: map[*ssa.Alloc]bool{}, params: map[string]Val{}, loopMeasure: map[*ssa.BasicBlock]string{}, sliceOrigins: map[ssa.Value]sliceOrigin{}, ancCache: map[int]map[int]bool{}}
+		escaped: map[*ssa.Alloc]bool{}, params: map[string]Val{}, loopMeasure: map[*ssa.BasicBlock]string{}, sliceOrigins: map[ssa.Value]sliceOrigin{}, ancCache: map[int]map[int]bool{}, closureOnly: map[*ssa.Alloc]bool{}}
 	fv.Name = strings.TrimPrefix(strings.Replace(fv.Name, p.ModPath+"/", "", 1), "")
 	fv.Name = strings.Replace(fv.Name, p.ModPath+".", "zerolog.", 1)
 	if c != nil {
@@ -477,6 +477,9 @@ func (fv *FuncVC) asTerm(v Val, gt types.Type) Term {
 	switch lv.Kind {
 	case LAlloc:
 		if len(lv.Path) == 0 {
+			if !fv.bindingEscape {
+				fv.closureOnly[lv.Alloc] = false
+			}
 			fv.escaped[lv.Alloc] = true
 			name := "addr_" + lv.Alloc.Name()
 			fv.declare(name, SRef)
@@ -661,6 +664,9 @@ func (fv *FuncVC) instr1(in ssa.Instruction) {
 	case *ssa.MakeClosure:
 		for _, b := range in.Bindings {
 			if a, ok := b.(*ssa.Alloc); ok {
+				if !fv.escaped[a] {
+					fv.closureOnly[a] = true
+				}
 				fv.escaped[a] = true
 			}
 		}
